@@ -36,9 +36,9 @@ PROP = dict(
         thorough=[
             job("invoices", "^TestVerifC15ReplayPrecheck$", ["TestVerifC15ReplayPrecheck"], 1, shards=1,
                 allow_short=True),
-            job("invoices", "^TestVerifC15Registry$", ["TestVerifC15Registry"], 1500, shards=12, timeout=1200,
+            job("invoices", "^TestVerifC15Registry$", ["TestVerifC15Registry"], 1000, shards=12, timeout=1500,
                 env=dict(VERIF_C15_STEPS=60)),
-            job("invoices", "^TestVerifC15Concurrent$", ["TestVerifC15Concurrent"], 400, shards=4, timeout=1200,
+            job("invoices", "^TestVerifC15Concurrent$", ["TestVerifC15Concurrent"], 250, shards=4, timeout=1500,
                 race=True),
         ],
     ),
